@@ -53,12 +53,41 @@ let u_relex c =
     let pos = ref 0 in
     let input_toks = List.map (fun (w, n, ty) -> let ct = String.sub c.input (!pos + w) n in pos := !pos + w + n; (ty, ct)) c.raw in
     let starts_with p s = String.length s >= String.length p && String.sub s 0 (String.length p) = p in
+    (* a separator line (`//` or `///` directly followed by >= 10 repetitions of ONE clearly non-alphanumeric character, ASCII
+       punctuation or a box-drawing / block / dash / bullet character) gets no space inserted: only its trailing blanks go *)
+    let utf8_chars (x : string) =
+      let n = String.length x in
+      let rec go i acc = if i >= n then List.rev acc else
+          let c = Char.code x.[i] in
+          let len = if c < 0x80 then 1 else if c < 0xE0 then 2 else if c < 0xF0 then 3 else 4 in
+          let len = min len (n - i) in
+          go (i + len) (String.sub x i len :: acc) in
+      go 0 [] in
+    let rec rtrim_blank (x : string) =
+      let n = String.length x in
+      if n > 0 && Char.code x.[n - 1] <= 32 then rtrim_blank (String.sub x 0 (n - 1))
+      else if n >= 3 && String.sub x (n - 3) 3 = "\xe3\x80\x80" then rtrim_blank (String.sub x 0 (n - 3))
+      else x in
+    let a_trimmed a = rtrim_blank a in
+    let is_separator_comment (a : string) =
+      let a = rtrim_blank a in
+      let body = if starts_with "///" a then String.sub a 3 (String.length a - 3) else if starts_with "//" a then String.sub a 2 (String.length a - 2) else a in
+      match utf8_chars body with
+      | [] -> false
+      | ch :: _ as chars ->
+        List.length chars >= 10 && List.for_all (fun x -> x = ch) chars
+        && (if String.length ch = 1 then (let c = ch.[0] in c <> '/' && not ((c >= '0' && c <= '9') || (c >= 'a' && c <= 'z') || (c >= 'A' && c <= 'Z')) && Char.code c > 32 && Char.code c < 127)
+            else if String.length ch = 3 && ch.[0] = '\xe2' then
+              (let b1 = Char.code ch.[1] and b2 = Char.code ch.[2] in
+               (b1 >= 0x94 && b1 <= 0x96) (* U+2500..U+25BF box drawing, blocks, geometric *) || (b1 = 0x80 && b2 >= 0x90 && b2 <= 0xA7) (* U+2010..U+2027 dashes, bullets *))
+            else ch = "\xc2\xb7") in
     let norm_eq ty (a : string) (b : string) =
       if a = b then true
       else if starts_with "Keyword(" ty || starts_with "IdentifierOrKeyword(" ty then String.lowercase_ascii a = b
       else if ty = "CompilerDirective" || starts_with "ConditionalDirective(" ty then String.lowercase_ascii a = String.lowercase_ascii b
       else if ty = "Comment(InlineLine)" || ty = "Comment(IndividualLine)" then
         strip (bytes_of_string a) = strip (bytes_of_string b) && starts_with "//" b
+        && (not (is_separator_comment a) || a_trimmed a = b)
       else if ty = "TextLiteral(MultiLine)" then
         let x = bytes_of_string a and y = bytes_of_string b in
         ml_value x = ml_value y && List.hd (lines_custom x) = List.hd (lines_custom y)
